@@ -603,13 +603,21 @@ def c03(prop, tier, replay):
     st, mcs = gen_mc("MC_Lookup", "MC_Lookup_q" if tier == "quick" else "MC_Lookup_t", wd, tier, need_actions=("Step",))
     cases = [{"id": "lk-%d" % i, "prop": "C03", "file": c["file"], "n": c["n"], "place": c["place"], "expect_ok": True}
              for i, c in enumerate(mcs)]
+    # beyond 4 GiB: huge samples, rendered header-only and read through a sparse stream (offsets and counts for
+    # every id, reads only outside 1..n: a sample is up to 2 GiB of zeros)
+    stb, big_mcs = gen_mc("MC_LookupBig", "MC_LookupBig", wd, tier, need_actions=("Step",))
+    for i, c in enumerate(big_mcs):
+        calls = [{"op": "count", "t": 1}] + [{"op": "offset", "t": 1, "k": k} for k in range(0, c["n"] + 3)] \
+            + [{"op": "read", "t": 1, "k": 0}, {"op": "read", "t": 1, "k": c["n"] + 1}]
+        cases.append({"id": "lkbig-%d" % i, "prop": "C03", "file": c["file"], "total": c["total"], "n": c["n"], "place": "sparse",
+                      "expect_ok": True, "calls": calls})
     # leg C: large random consistent table sets rendered by the library's own writers
     rp = os.path.join(wd, "random-tables.ndjson")
     nrand = 60 if tier == "quick" else 1500
     mp4v(["tables-gen", str(seed()), str(nrand), rp])
     cases += read_ndjson(rp)
     res = validate_sharded("Trace_Read", cases, wd, "lookup", 6 if tier == "quick" else 16, runner="read-run")
-    report_read(prop, tier, res, cases, [st], t0, known, "model_checking",
+    report_read(prop, tier, res, cases, [st, stb], t0, known, "model_checking",
                 "every consistent sample-table set of the bounded space (all chunk compositions, stsc encodings, size vectors, "
                 "stts/ctts encodings, sync subsets, placements; n <= %d) rendered to a file by the specification, plus seeded "
                 "random large table sets; distinct = distinct file bytes; non-trivial = at least 2 samples" % (3 if tier == "quick" else 4),
